@@ -192,6 +192,14 @@ def gen_spec(rng, scale_kind=None, n=None, direction=None, c08=False, text_class
                 opts["domain"][1] += dt.timedelta(milliseconds=1)
         if opts["domain"][0] == opts["domain"][1]:
             del opts["domain"]
+    if rng.random() < 0.2:
+        lat = {}
+        for k, vals in (("fontsize", ["10pt", "12pt"]), ("axisThickness", ["thin", "thick"]), ("linkThickness", ["thin", "ultra thick"]),
+                        ("tickThickness", ["very thin", "very thick"]), ("borderThickness", ["thin", "thick"]), ("tickCross", [True]),
+                        ("reproducible", [True])):
+            if rng.random() < 0.35:
+                lat[k] = rng.choice(vals)
+        opts["latex"] = lat
     if rng.random() < 0.08 and tcls != "none":
         opts["textFn"] = {"fn": "text_from_label"}
         for d in data:
